@@ -15,6 +15,18 @@ import (
 // ErrIO is the injected read/write error (EIO).
 var ErrIO = errors.New("simio: injected I/O error (EIO)")
 
+// tempErr is an injected read error that calls itself temporary (EAGAIN, EINTR,
+// a passed read deadline): callers that retry such errors must still come back
+// when it persists.
+type tempErr struct{ msg string }
+
+func (e *tempErr) Error() string   { return e.msg }
+func (e *tempErr) Temporary() bool { return true }
+func (e *tempErr) Timeout() bool   { return true }
+
+// ErrTemporary is the injected error whose Temporary() and Timeout() report true.
+var ErrTemporary error = &tempErr{"simio: injected i/o timeout (temporary)"}
+
 // ErrNoSpace is the injected ENOSPC.
 var ErrNoSpace = errors.New("simio: injected no space left on device (ENOSPC)")
 
@@ -53,6 +65,39 @@ type Reader struct {
 	Calls     int
 	Delivered int
 	SawEOF    bool
+
+	errv     error // what a fault returns (ErrIO, or ErrTemporary)
+	withData bool  // the sticky fault arrives together with the last bytes before it: (n>0, err)
+}
+
+// drawErrFlavour decides, from the tape, which error value a planned fault
+// returns and whether it comes together with data.
+func (rd *Reader) drawErrFlavour() {
+	t := rd.run.T
+	rd.errv = ErrIO
+	if t.Bool(1, 4, "rd.errflavour") {
+		rd.errv = ErrTemporary
+		rd.run.Stats["rd.err.temporary"]++
+	}
+	rd.withData = t.Bool(1, 4, "rd.errwithdata")
+}
+
+// SetErrFlavour fixes the fault's error value and style explicitly (for
+// workloads that must present the same stream several times); call it after
+// FailAt / FailOnceAt.  It draws nothing.
+func (rd *Reader) SetErrFlavour(temporary, withData bool) {
+	rd.errv = ErrIO
+	if temporary {
+		rd.errv = ErrTemporary
+	}
+	rd.withData = withData
+}
+
+func (rd *Reader) faultErr() error {
+	if rd.errv == nil {
+		return ErrIO
+	}
+	return rd.errv
 }
 
 // NewReader draws a delivery profile from the tape.  The all-zero tape gives
@@ -104,6 +149,9 @@ func (rd *Reader) TruncateAt(k int) {
 // FailAt makes the stream return ErrIO (sticky) once k bytes were delivered.
 func (rd *Reader) FailAt(k int) {
 	rd.failAt = k
+	if rd.Mode != ModeFixed {
+		rd.drawErrFlavour()
+	}
 	rd.run.Event("fault", "eio-planned", fmt.Sprintf("%s at=%d", rd.name, k))
 }
 
@@ -121,13 +169,13 @@ func (rd *Reader) Read(p []byte) (int, error) {
 	r.Tick()
 	r.Yield("read")
 	if rd.failed {
-		return 0, ErrIO
+		return 0, rd.faultErr()
 	}
 	if rd.onceAt >= 0 && !rd.onceHit && rd.pos >= rd.onceAt {
 		rd.onceHit = true
 		r.Fault("read.transient-eio")
 		r.Event("read", "transient-eio", rd.name)
-		return 0, ErrIO
+		return 0, rd.faultErr()
 	}
 	lim := rd.limit()
 	failLim := -1
@@ -143,7 +191,7 @@ func (rd *Reader) Read(p []byte) (int, error) {
 		rd.failed = true
 		r.Fault("read.eio")
 		r.Event("read", "eio", rd.name)
-		return 0, ErrIO
+		return 0, rd.faultErr()
 	}
 	if len(p) == 0 {
 		return 0, nil
@@ -189,6 +237,14 @@ func (rd *Reader) Read(p []byte) (int, error) {
 	copy(p, rd.data[rd.pos:rd.pos+n])
 	rd.pos += n
 	rd.Delivered += n
+	if failLim >= 0 && rd.pos >= failLim && rd.withData {
+		// the error arrives in the same call as the last bytes before it
+		rd.failed = true
+		r.Fault("read.eio")
+		r.Stats["rd.err.with-data"]++
+		r.Event("read", "data+eio", fmt.Sprintf("%s n=%d", rd.name, n))
+		return n, rd.faultErr()
+	}
 	atEnd := failLim < 0 && rd.pos >= endLim
 	if atEnd && rd.EOFTogether {
 		rd.SawEOF = true
@@ -204,6 +260,9 @@ func (rd *Reader) Read(p []byte) (int, error) {
 // Read returns (0, ErrIO) exactly once; the stream then continues normally.
 func (rd *Reader) FailOnceAt(k int) {
 	rd.onceAt = k
+	if rd.Mode != ModeFixed {
+		rd.drawErrFlavour()
+	}
 	rd.run.Event("fault", "transient-eio-planned", fmt.Sprintf("%s at=%d", rd.name, k))
 }
 
